@@ -42,10 +42,13 @@ Either(e) == Same(e.res) /\ e.res \in {"ok", "ValueError"}
 TStep == /\ l <= Len(Tr.events)
          /\ LET e == Tr.events[l] IN
             /\ \/ e.op = "open"      /\ vals' = saved /\ tail' = "none" /\ res' = "ok" /\ UNCHANGED saved
-               \/ e.op = "append"    /\ AAppend(e.v) /\ UNCHANGED saved
+               \* (e.hash: the NEW value begins with '#'.  Such values exist in fields -- only a '#' in column 0 of a
+               \*  line starts a comment -- but handing one in is refused today: unspecified, the list stays consistent)
+               \/ e.op = "append"    /\ (AAppend(e.v) \/ (e.hash /\ Either(e))) /\ UNCHANGED saved
                \/ e.op = "remove"    /\ (IF LHas(vals, e.v) THEN ARemove(e.v) ELSE Either(e)) /\ UNCHANGED saved
-               \/ e.op = "replace"   /\ (IF LHas(vals, e.v) THEN AReplace(e.v, e.w) ELSE Either(e)) /\ UNCHANGED saved
-               \/ e.op = "refset"    /\ ARefSet(e.i, e.w) /\ UNCHANGED saved
+               \/ e.op = "replace"   /\ (IF LHas(vals, e.v) THEN (AReplace(e.v, e.w) \/ (e.hash /\ Either(e))) ELSE Either(e))
+                                     /\ UNCHANGED saved
+               \/ e.op = "refset"    /\ (ARefSet(e.i, e.w) \/ (e.hash /\ e.i \in 1..Len(vals) /\ Either(e))) /\ UNCHANGED saved
                \/ e.op = "refremove" /\ ARefRemove(e.i) /\ UNCHANGED saved
                \/ e.op \in {"sep", "sep0"} /\ Tr.mode = "cm" /\ AAppendSep /\ UNCHANGED saved
                \/ e.op = "nl"        /\ (IF tail = "none" THEN AAppendNl ELSE Either(e)) /\ UNCHANGED saved
